@@ -648,6 +648,12 @@ SearchKinds == {"SearchPromises", "SearchSchedules"}
 \* cursor exactly when the page is full) on the state of one of the request's commit points,
 \* with no overdue promise reported pending
 C14_PageIsTheQueryResult == (IsRespond /\ reqs[Last.r].kind \in SearchKinds) => chk.resp = ""
+\* a cursor carries the query it continues: the request for the next page (as decoded from the real
+\* cursor by the real API helper) asks for the same pattern, states, tags and page size as the first one
+C14_CursorCarriesQuery ==
+  (Last.e = "submit" /\ Last.trav # "" /\ Last.page > 1) =>
+     \A r \in DOMAIN reqs : (reqs[r].trav = Last.trav /\ reqs[r].page = 1) =>
+        [reqs[r].args EXCEPT !.cursor = None] = [Last.args EXCEPT !.cursor = None]
 C14_NoDuplicates == IsRespond => ~ chk.travDup
 C14_Complete == IsRespond => chk.travMissing = {}
 C14_ForgedCursorRejected == Last.e = "cursor" => chk.cursor
